@@ -9,6 +9,7 @@ import (
 	"path"
 	"path/filepath"
 	"regexp"
+	"strings"
 
 	"github.com/coreruleset/crs-toolchain/v2/regex"
 	"github.com/coreruleset/crs-toolchain/v2/utils"
@@ -246,9 +247,10 @@ func SpecWithHeader(lines []string, has bool) []string {
 	return append([]string{"##! Please refer to the documentation at\n##! https://coreruleset.org/docs/development/regex_assembly/.\n"}, lines...)
 }
 
-// SpecKeepHeaderBlank: when nothing but the header is left, its empty line stays.
-func SpecKeepHeaderBlank(lines []string) []string {
-	if len(lines) == 3 && SpecHasHeader(lines) {
+// SpecKeepHeaderBlank: when the file had the header and nothing but the header is left, the
+// header's empty line stays.
+func SpecKeepHeaderBlank(lines []string, hadHeader bool) []string {
+	if hadHeader && len(lines) == 3 {
 		return append(append([]string{}, lines...), "")
 	}
 	return lines
@@ -258,14 +260,14 @@ func SpecKeepHeaderBlank(lines []string) []string {
 //@   tags C09 C15 C16 C17
 //@   opt scan-complete C17
 //@   opt termination C09
-//@   opt trust-pre checkStandardHeader
+//@   use call checkStandardHeader LemmaMapLinesNoNL(scanLines(scanner), len(scanLines(scanner)))
 //@   results r
 //@   modifies fsWrites
 //@   ensures[C15,C09] check-never-writes: implies(checkOnly, fsWrites() == old(fsWrites()))
 //@   ensures[C15] at-most-one-write: fsWrites() <= old(fsWrites())+1
 //@   ensures[C15] writes-own-path: implies(fsWrites() > old(fsWrites()), lastWritePath() == filePath)
 //@   checks[C09,C16] writes-formatted-bytes: implies(fsWrites() > old(fsWrites()), called(Join) && lastWriteData() == resultOf(Join, 0))
-//@   checks[C09,C10] formatted-text: implies(called(Join), resultOf(Join, 0) == utils.OpaqueJoinLines(SpecKeepHeaderBlank(SpecFmtEof(SpecWithHeader(SpecMapLines(scanLines(scanner), len(scanLines(scanner))), SpecHasHeader(SpecMapLines(scanLines(scanner), len(scanLines(scanner)))))))))
+//@   checks[C09,C10] formatted-text: implies(called(Join), resultOf(Join, 0) == utils.OpaqueJoinLines(SpecKeepHeaderBlank(SpecFmtEof(SpecWithHeader(SpecMapLines(scanLines(scanner), len(scanLines(scanner))), SpecHasHeader(SpecMapLines(scanLines(scanner), len(scanLines(scanner)))))), SpecHasHeader(SpecMapLines(scanLines(scanner), len(scanLines(scanner)))))))
 //@   checks[C16] error-means-no-write: implies(r != nil && !called(WriteFile), fsWrites() == old(fsWrites()))
 //@   checks[C09] check-verdict: implies(checkOnly && called(findUpperCaseCharacterClassOnIgnoreCaseFlag) && resultOf(ReadFile, 1) == nil, (r != nil) == (lastRead() != resultOf(Join, 0) || resultOf(findUpperCaseCharacterClassOnIgnoreCaseFlag, 0)))
 //@   checks[C09,C16] write-reported: implies(!checkOnly && called(WriteFile), (r != nil) == (resultOf(WriteFile, 0) != nil))
@@ -276,9 +278,102 @@ func SpecKeepHeaderBlank(lines []string) []string {
 
 // ---- format: header -----------------------------------------------------------------
 
-// SpecNoNL: no newline byte in s (true of every line a scanner returns).
-func SpecNoNL(s string) bool {
-	return forall(0, len(s), func(i int) bool { return s[i] != '\n' })
+// noNL: no newline byte in s (true of every line a scanner returns; built into the prover).
+func noNL(s string) bool { return !strings.Contains(s, "\n") }
+
+// SpecNoNL: the same, as a spec function.
+func SpecNoNL(s string) bool { return noNL(s) }
+
+// SpecAllNoNL: no line among lines[0..n) contains a newline.
+func SpecAllNoNL(lines []string, n int) bool {
+	return forall(0, n, func(k int) bool { return noNL(lines[k]) })
+}
+
+//@ lemma LemmaSpacesNoNL
+//@   tags C09
+//@   decreases n
+//@   ensures noNL(SpecSpaces(n))
+
+func LemmaSpacesNoNL(n int) {
+	if n <= 0 {
+		return
+	}
+	LemmaSpacesNoNL(n - 1)
+}
+
+// a formatted line contains no newline if the line it was made from contains none
+//@ lemma LemmaLineOutNoNL
+//@   tags C09
+//@   requires noNL(line)
+//@   ensures noNL(SpecLineOut(line, indent))
+
+func LemmaLineOutNoNL(line string, indent int) {
+	LemmaSpacesNoNL(2 * SpecLineDepth(line, indent))
+	utils.LemmaSkipBlanks(line, 0)
+	if SpecLineIsBlank(line) {
+		return
+	}
+	if SpecLineFails(line, indent) {
+		return
+	}
+	LemmaLineBodyNoNL(line)
+	LemmaConcatNoNL(SpecSpaces(2*SpecLineDepth(line, indent)), SpecLineBody(line))
+}
+
+//@ lemma LemmaConcatNoNL
+//@   tags C09
+//@   requires noNL(a) && noNL(b)
+//@   ensures noNL(a + b)
+
+func LemmaConcatNoNL(a, b string) {}
+
+// the rebuilt text of a line is made of literals without newline and of capture groups,
+// which are substrings of the line
+//@ lemma LemmaLineBodyNoNL
+//@   tags C09
+//@   requires noNL(line)
+//@   ensures noNL(SpecLineBody(line))
+
+func LemmaLineBodyNoNL(line string) {
+	utils.LemmaSkipBlanks(line, 0)
+	if reMatch(regex.ProcessorBlockStartRegex, line) {
+		return
+	}
+	if reMatch(regex.ProcessorEndRegex, line) {
+		return
+	}
+	if reMatch(regex.FlagsRegex, line) {
+		return
+	}
+	if reMatch(regex.PrefixRegex, line) {
+		return
+	}
+	if reMatch(regex.SuffixRegex, line) {
+		return
+	}
+	if reMatch(regex.DefinitionRegex, line) {
+		return
+	}
+	if reMatch(regex.IncludeRegex, line) {
+		return
+	}
+	if reMatch(regex.IncludeExceptRegex, line) {
+		return
+	}
+}
+
+//@ lemma LemmaMapLinesNoNL
+//@   tags C09
+//@   requires 0 <= n && n <= len(src) && SpecAllNoNL(src, len(src))
+//@   decreases n
+//@   ensures len(SpecMapLines(src, n)) == n && SpecAllNoNL(SpecMapLines(src, n), n)
+
+func LemmaMapLinesNoNL(src []string, n int) {
+	if n <= 0 {
+		return
+	}
+	LemmaMapLinesNoNL(src, n-1)
+	LemmaLineOutNoNL(src[n-1], SpecDepthAt(src, n-1))
 }
 
 // SpecHasHeader: the first three lines are the two standard header lines and an empty line.
